@@ -162,6 +162,10 @@ class EFLRItem:
 
         if key == 'name':
             self.__dict__.pop('obname', None)  # the cached OBNAME bytes contain the name
+            if '_copy_number' in self.__dict__ and value != self.__dict__.get('name'):
+                # renamed: the copy number must tell this item from the other items of the set which have the new name
+                taken = {o.copy_number for o in self.parent.get_all_eflr_items() if o is not self and o.name == value}
+                self.__dict__['_copy_number'] = next(n for n in range(len(taken) + 1) if n not in taken)
 
         return super().__setattr__(key, value)
 
